@@ -31,7 +31,7 @@ NAME_POOL = ["Options", "OptionalFeature", "Option_", "Vec3", "Vector", "VecDequ
              "Results", "ResultSet", "Stringy", "StringList", "Str", "Boolean", "Bool", "I32Wrapper", "U8", "F64x", "Usize", "Channel2", "ChannelMsg",
              "Record", "Tuple", "Unit", "Boxed", "ArcItem", "T", "A", "Z9", "Item_V2", "HTTPResponse", "State2", "Window2", "AppHandle2", "Event", "Error",
              "Self_", "Some", "None_", "Ok", "Err", "Node", "User", "Config"]
-ROOT_KINDS = ["param", "return", "return-result-ok", "channel", "event-typed-param", "event-struct-expr", "event-let"]
+ROOT_KINDS = ["param", "return", "return-result-ok", "channel", "event-typed-param", "event-struct-expr", "event-let", "event-shadowed-let"]
 HDR = rg.PRELUDE + "use tauri::{AppHandle, Emitter, ipc::Channel};\n\n"
 
 
@@ -104,6 +104,7 @@ def gen_case(rnd, idx, forced_ctx=None, forced_root=None, n=None):
             inline_defined.add(names[i])
         body.setdefault(file_of[i], []).append(src)
     cmds = []
+    shadow_decoys = set()
     for r, (target, rk, lab, ty) in enumerate(roots):
         rs = q(rg.rust(ty))
         nm = "root_%d_%d" % (idx, r)
@@ -122,6 +123,13 @@ def gen_case(rnd, idx, forced_ctx=None, forced_root=None, n=None):
             cmds.append("pub fn %s(app: AppHandle) {\n    let v: %s = todo!();\n    app.emit(\"ev-%s\", &v).unwrap();\n}\n\n" % (nm, rs.replace("&", "&'static "), nm))
         elif rk == "event-struct-expr":
             cmds.append("pub fn %s(app: AppHandle) {\n    app.emit(\"ev-%s\", %s { id: 1 }).unwrap();\n}\n\n" % (nm, nm, names[target]))
+        elif rk == "event-shadowed-let":
+            # the payload variable shadows an earlier binding of another (otherwise unused) serde type: only the later type is reachable
+            shadow = "ShadowedFirst%d_%d" % (idx, r)
+            shadow_decoys.add(shadow)
+            cmds.append(rg.struct_src(shadow, [("id", "i32")]) +
+                        "pub fn %s(app: AppHandle) {\n    let v = %s { id: 0 };\n    let _ = &v;\n    let v: %s = todo!();\n    app.emit(\"ev-%s\", &v).unwrap();\n}\n\n" % (
+                            nm, shadow, rs.replace("&", "&'static "), nm))
     if err_only:
         body.setdefault("lib.rs", []).append(rg.struct_src(err_only, [("msg", "String")]))
         if not any(rk == "return-result-ok" for (_, rk, _, _) in roots):
@@ -170,7 +178,7 @@ def gen_case(rnd, idx, forced_ctx=None, forced_root=None, n=None):
     info = {"parents": parents, "rootvia": rootvia, "names": names, "kinds": kinds, "nonserde": {names[i] for i in nonserde}, "via": {names[i]: sorted(v) for i, v in via.items()},
             "err_only": err_only, "n": n, "edges": sum(len(v) for v in edges.values()), "files": len(files),
             "has_cycle": any(j <= i for i in edges for (j, _, _) in edges[i]),
-            "all": set(names) | ({err_only} if err_only else set()), "spelling": spelling, "inline": inline_defined,
+            "all": set(names) | ({err_only} if err_only else set()) | shadow_decoys, "spelling": spelling, "inline": inline_defined,
             "tuple_structs": {names[i] for i in range(n) if kinds[i] == "tuple"}}
     return files, expected, info
 
